@@ -9,7 +9,7 @@
 static messageq_t *mq;
 static char *store;
 static int depth, ns, mp, rt;
-#define MSGLEN 8
+static int MSGLEN = 8;   /* message size: irrelevant to the specification, but large storage exercises the offset arithmetic */
 static int ids[VRT_MAXCTX];
 
 static int slot_of(void *p) { return (int)(((char *)p - store) / MSGLEN); }
@@ -121,6 +121,7 @@ static void gen(long seed, int nexec, int dmax, int smax, int mmax, int irq)
 	for (int x = 0; x < nexec; x++) {
 		int d = 1 + drv_below(dmax), s = 1 + drv_below(smax), m = 1 + drv_below(mmax);
 		int r = 1 + drv_below(s * m + 2);
+		MSGLEN = drv_below(4) ? (drv_below(2) ? 8 : 24) : 4096;
 		reset(d, s, m, r);
 		int stack[VRT_MAXCTX], sdep = 0, started[VRT_MAXCTX] = { 0 };
 		for (;;) {
@@ -145,6 +146,7 @@ static void gen(long seed, int nexec, int dmax, int smax, int mmax, int irq)
 /* sender 1's single claim loses the compare-exchange on sendp `k` times in a row to sender 2's claims */
 static void starve(int d, int k)
 {
+	MSGLEN = 8;
 	reset(d, 2, k + 1, 1);          /* both senders may send up to k+1 messages; the receiver makes one attempt */
 	step(1); step(1);                /* victim: fetch_sub, load sendp */
 	for (int i = 0; i < k; i++) {
@@ -159,8 +161,10 @@ int main(void)
 	drv_cmd_t c;
 	drv_install_handlers();
 	while (drv_read(&c, stdin)) {
-		if (drv_is(&c, "Reset"))
+		if (drv_is(&c, "Reset")) {
+			MSGLEN = c.ntok > 5 ? drv_arg(&c, 4) : 8;
 			reset(drv_arg(&c, 0), drv_arg(&c, 1), drv_arg(&c, 2), drv_arg(&c, 3));
+		}
 		else if (drv_is(&c, "S"))
 			step(drv_arg(&c, 0));
 		else if (drv_is(&c, "Starve"))
